@@ -297,12 +297,25 @@ func runCase(name string, init int, steps []stepJ) (caseJ, error) {
 	if err := conn.Start(); err != nil {
 		return caseJ{}, err
 	}
-	defer conn.Stop()
+	// BitcoindConn.Stop shuts the rpcclient down BEFORE it stops the poller;
+	// a poll in flight at that moment waits for its answer for ever and Stop
+	// never returns (a shutdown race of the backend, outside the properties):
+	// stopping is given two seconds and then abandoned - every case has its
+	// own connection and node
+	stopWithin := func(f func()) {
+		done := make(chan struct{})
+		go func() { f(); close(done) }()
+		select {
+		case <-done:
+		case <-time.After(2 * time.Second):
+		}
+	}
+	defer stopWithin(conn.Stop)
 	cl := conn.NewBitcoindClient()
 	if err := cl.Start(); err != nil {
 		return caseJ{}, err
 	}
-	defer cl.Stop()
+	defer stopWithin(cl.Stop)
 	done := make(chan struct{})
 	go func() {
 		defer close(done)
